@@ -50,6 +50,7 @@ func (s *Service) Start() {
 func (s *Service) handleConnection(socket *websocket.Conn) {
 	var client = new(ClientService)
 	client.Conn = socket
+	client.Done = make(chan struct{})
 
 	if !s.authenticate(client) {
 		logger.Error("Failed to authenticate service client")
@@ -750,6 +751,11 @@ func (s *Service) ClientClose(client *ClientService) {
 				if err != nil {
 					logger.DebugError("Failed to close service client connection: " + err.Error())
 				}
+			}
+
+			// release the agent requests that are still waiting for an answer of this client
+			if client.Done != nil {
+				close(client.Done)
 			}
 
 			// remove from list. the slice has changed: stop ranging over it
